@@ -961,7 +961,8 @@ fn c18(tier: &str, thorough: bool) -> i32 {
     let mut small = Vec::new();
     let mut large = Vec::new();
     for (i, h) in hists.into_iter().enumerate() {
-        let sweep = thorough || (h.ops.len() <= 1 && h.version == 3 && i % 3 == 0) || (h.seed != "d1" && h.seed.len() <= 7 && h.version == 3);
+        // the per-index sweep is quadratic in the history length: thorough = every history of depth <= 2 (V3) / 1 (V4) and all seeds
+        let sweep = if thorough { h.seed != "d1" || h.ops.len() <= if h.version == 3 { 2 } else { 1 } } else { (h.ops.len() <= 1 && h.version == 3 && i % 3 == 0) || (h.seed != "d1" && h.seed.len() <= 7 && h.version == 3) };
         if sweep {
             small.push(h);
         } else {
